@@ -570,6 +570,10 @@ def oracle(ctx, deep):
                 rc, out, err = run_binary(exe, argv, None)
                 done += 1
                 base = {"argv": argv, "line": " ".join(argv), "observed": {"exit": rc, "stdout": out[:200].decode("utf-8", "replace"), "stderr": err[:300].decode("utf-8", "replace")}}
+                if fobj:
+                    # the word files the command line names, so that the replay can put them back
+                    named = [a.split("=", 1)[1] for a in argv if "file=" in a and "=" in a]
+                    base["files"] = {pth: fobj.made[pth].hex() for pth in named if fobj.made.get(pth) is not None}
                 v = judge_line(d, rc, out)
                 if v:
                     ctx.violations.append(dict(base, finding_key="C17-cli", what=v))
@@ -717,7 +721,15 @@ def match_multi(line, pat, seplits, wordset, maxlen):
 
 def replay(v):
     exe = os.path.join(core.BUILD, "opgen_plain")
+    made = []
+    for pth, content in (v.get("files") or {}).items():
+        os.makedirs(os.path.dirname(pth), exist_ok=True)
+        open(pth, "wb").write(bytes.fromhex(content))
+        made.append(pth)
+        print("word file %s: %r" % (pth, bytes.fromhex(content)[:200]))
     rc, out, err = run_binary(exe, v["argv"], None)
+    for pth in made:
+        shutil.rmtree(os.path.dirname(pth), ignore_errors=True)
     print("opgen", " ".join(v["argv"]))
     print("-> exit", rc, "stdout", out[:200], "stderr", err[:200])
     print("violation:", v["what"])
